@@ -202,7 +202,7 @@ def main():
             print("WARNING: audited site %s no longer exists (dropped)" % key)
             continue
         if "guard_patterns" in e:
-            sigs = sorted({g1_panic.guard_sig(f) for f in A.facts_at(s.block)})
+            sigs = sorted({g1_panic.guard_sig(f) for f in A.facts_at(s.block, stale_ok=True)})
             need = []
             for gp in e["guard_patterns"]:
                 ms = [g for g in sigs if re.search(gp, g)]
